@@ -640,7 +640,13 @@ class Keys:
             lab = 'C11:merges' if ign else 'C09:canonical'
             if lab.split(':')[0] in props:
                 kind = 'equivalent calls get different keys'
-                if cfg.get('partial') == 'extra' and '**' in spec and ((XKW[0] in A.kw) != (XKW[0] in B.kw)):
+                kwo_ign = [KWO[i] for i in range(sh['nkwo']) if KWO[i] in spec]
+                if '**' in spec and kwo_ign and any((n in A.kw) != (n in B.kw) for n in kwo_ign):
+                    # the known keyword-only defect seen from the other side: a keyword-only parameter that is passed is dropped
+                    # by '**', while the same parameter - ignored by name and left to its default - stays as a placeholder
+                    kind = "ignore='**' also drops keyword-only parameters from the key"
+                    info = {'A': A.desc, 'B': B.desc, 'diagnosed': True}
+                elif cfg.get('partial') == 'extra' and '**' in spec and ((XKW[0] in A.kw) != (XKW[0] in B.kw)):
                     # known: an extra keyword pre-bound by functools.partial stays in the key unless the call overrides it
                     kind = "ignore='**' keeps an extra keyword that functools.partial pre-bound when the call does not override it"
                     info = {'A': A.desc, 'B': B.desc, 'diagnosed': True}
@@ -893,9 +899,7 @@ def plan(prop, tier):
                     add(sh, km, wit='typed2')
         add(quick_shapes()[2], 'raw', canary=True)
     elif prop == 'C11':
-        for sh in shapes:
-            if not q and sh['nkwo'] > 1:
-                continue          # thorough: shapes with at most one keyword-only parameter (the ignore machinery treats them alike)
+        for sh in quick_shapes():     # thorough: the same 24 shapes with more ignore specifications and a third keymap
             for spec in ignore_specs(sh, tier):
                 for km in (('raw', 'strflat') if q else ('raw', 'rawnf', 'strflat')):
                     if km in ('raw', 'strflat', 'md5') and sh['varargs']:
